@@ -266,4 +266,23 @@ def genBoard (length width : Nat) (pLoose : Float) (maxReward : Nat) (forceDown 
       let row := d.rows.getD i []
       if forceDown then row.set (d.downs.getD i 0) 3 else row) }
 
+/-! ### `main` as a trace of externally visible effects -/
+
+inductive Effect where
+  | raiseValueError (check : Nat)     -- `check_input` refused: index of the failing check
+  | seedRng (seed : Int)              -- `random.seed(seed)`
+  | drawBoard                         -- all `random.*` calls of `gen_rnd_board`
+  | openWrite (path : String)         -- `open(file_name, "w")` and the writes
+  deriving Repr, DecidableEq
+
+/-- `roberta_generator.main()` after argument parsing -/
+def mainEffects (seed width length : Int) (pRobot pLight pLoose pTile : Float) (maxReward : Int)
+    (forceDown : Bool) : List Effect :=
+  match checkInput seed width length pRobot pLight pLoose pTile maxReward with
+  | some k => [.raiseValueError k]
+  | none =>
+    [.seedRng seed, .drawBoard,
+     .openWrite (fileName seed.toNat width.toNat length.toNat maxReward.toNat pRobot pLight pTile pLoose
+       forceDown)]
+
 end CR.Gen
